@@ -34,15 +34,25 @@ PostAll(x) == IF x.db.outbox = <<>> THEN x ELSE PostAll(DoDeleteHead(DoSendHead(
 
 KnownKinds == {"checkin", "commit", "eval", "acc", "apol", "result"}
 Evaluable(x, what, h) ==
-    CASE what = "sync"  -> x.db.sync + 1 = h /\ h <= x.head /\ Len(x.blocks) >= h + 1
+    CASE what = "sync"  -> x.db.sync < h /\ h = x.head /\ Len(x.blocks) >= h + 1
       [] what = "post"  -> \A i \in DOMAIN x.db.outbox : x.db.outbox[i].k \in KnownKinds
       [] what = "close" -> x.db.outbox = <<>> /\ x.head + 1 = h
       [] OTHER -> FALSE
 
-(* the crash-free outcome of a step; the memory of the keyper is re-created from the database
-   (equivalent to keeping it, with LoadMode "nilsafe") *)
+(* one SyncAppWithDB call: one transaction per closed block that is not applied yet; the memory of
+   the keyper is re-created from the database before each (equivalent to keeping it, with LoadMode
+   "nilsafe" and handlers that mark what they change: invariant MemMatchesDb of KeyperCrashMC) *)
+RECURSIVE SyncAll(_)
+SyncAll(x) == IF x.db.sync >= x.head THEN x
+              ELSE SyncAll(DoTxCommit(DoTxBody([x EXCEPT !.mem = MemFresh, !.pc = "sync"])))
+(* the databases a crash inside that call can leave behind: any number of its transactions committed *)
+RECURSIVE SyncDbs(_)
+SyncDbs(x) == IF x.db.sync >= x.head THEN {x.db}
+              ELSE {x.db} \cup SyncDbs(DoTxCommit(DoTxBody([x EXCEPT !.mem = MemFresh, !.pc = "sync"])))
+
+(* the crash-free outcome of a step *)
 SpecStep(x, what) ==
-    CASE what = "sync"  -> DoSyncDone(DoTxCommit(DoTxBody([x EXCEPT !.mem = MemFresh, !.pc = "sync"])))
+    CASE what = "sync"  -> DoSyncDone(SyncAll(x))
       [] what = "post"  -> PostAll([x EXCEPT !.pc = "post"])
       [] what = "close" -> DoClose([x EXCEPT !.pc = "post"])
 
@@ -50,7 +60,7 @@ IsSuffix(a, b) == Len(a) <= Len(b) /\ a = SubSeq(b, Len(b) - Len(a) + 1, Len(b))
 
 (* what the database may look like right after a crash inside the step *)
 MidAllowed(pre, e, what, mid) ==
-    CASE what = "sync" -> mid.db = pre.db \/ mid.db = e.db
+    CASE what = "sync" -> mid.db \in SyncDbs(pre)
       [] what = "post" -> mid.db = [pre.db EXCEPT !.outbox = mid.db.outbox] /\ IsSuffix(mid.db.outbox, pre.db.outbox)
       [] OTHER -> FALSE
 
